@@ -54,8 +54,8 @@ def header(ptype: int, flags: int, frag_len: int, auth_len: int, call_id: int = 
     return struct.pack("<BBBB4sHHI", 5, 0, ptype, flags, DREP_LE, frag_len, auth_len, call_id)
 
 
-def sec_trailer(auth_type: int, level: int, pad_len: int, ctx_id: int, value: bytes) -> bytes:
-    return struct.pack("<BBBBI", auth_type, level, pad_len, 0, ctx_id) + value
+def sec_trailer(auth_type: int, level: int, pad_len: int, ctx_id: int, value: bytes, reserved: int = 0) -> bytes:
+    return struct.pack("<BBBBI", auth_type, level, pad_len, reserved & 0xFF, ctx_id) + value
 
 
 def _finish(ptype: int, flags: int, body: bytes, auth: t.Optional[dict], call_id: int = 1) -> bytes:
@@ -64,7 +64,7 @@ def _finish(ptype: int, flags: int, body: bytes, auth: t.Optional[dict], call_id
     auth_len = 0
     if auth is not None:
         auth_len = len(auth["value"])
-        auth_b = sec_trailer(auth["type"], auth["level"], auth.get("pad", 0), auth.get("ctx", 0), auth["value"])
+        auth_b = sec_trailer(auth["type"], auth["level"], auth.get("pad", 0), auth.get("ctx", 0), auth["value"], auth.get("reserved", 0))
     total = 16 + len(body) + len(auth_b)
     return header(ptype, flags, total, auth_len, call_id) + body + auth_b
 
